@@ -114,8 +114,9 @@ fn replay(file: &str) -> i32 {
                 Err(e) => harness_fail(&format!("{e:?}")),
             }
         }
-        "e2-c05" | "e2-c06" | "e2-c20" | "e2-c12" | "e5" | "e4" | "e3" => {
-            let argv = vec!["worker".to_string(), engine.to_string(), "--replay".to_string(), file.to_string()];
+        "e2-c05" | "e2-c06" | "e2-c20" | "e2-c12" | "e5" | "e5-direct" | "e4" | "e3" => {
+            let worker_name = if engine == "e5-direct" { "e5" } else { engine };
+            let argv = vec!["worker".to_string(), worker_name.to_string(), "--replay".to_string(), file.to_string()];
             let out: Result<Vec<serde_json::Value>, _> = simcore::pool::run_workers(vec![argv], false);
             match out {
                 Ok(r) => {
@@ -138,6 +139,16 @@ fn replay(file: &str) -> i32 {
 }
 
 fn worker(args: &[String]) -> i32 {
+    if args.iter().any(|a| a == "--minimise" || a == "--replay")
+        || matches!(args.first().map(String::as_str), Some("e1-min" | "e1-replay" | "e1-fault-replay"))
+    {
+        // replayed and minimised executions share one fixed scratch location
+        // SAFETY: single-threaded at this point.
+        unsafe {
+            std::env::set_var("VERIF_FIXED_SCRATCH", "1");
+        }
+        simcore::lock_fixed_scratch();
+    }
     match args.first().map(String::as_str) {
         Some("e1") => {
             let shim = need_shim();
